@@ -564,7 +564,15 @@ def _t_pricing_capacity_floor_after_gcd(tree):
     g.body[k[0] + 1 : k[0] + 1] = M.stmts("g_ = min(sizes_int)\nif g_ > 1 and all(s_ % g_ == 0 for s_ in sizes_int):\n    cap_int = cap_int // g_\n    sizes_int = [s_ // g_ for s_ in sizes_int]")
 
 
+def _v_bp_custom_pricing_wrapped(tree):
+    g = M.find_func(tree, "_solve_bp_custom")
+    M.insert(g, "return _branch_and_price(", "def pricing(duals):\n    col, reduced_cost = pricing_fn(duals)\n    if col is None or tuple(col) in column_set:\n        return None, reduced_cost\n    return tuple(col), reduced_cost")
+    ret = [x for x in g.body if isinstance(x, ast.Return)][0]
+    ret.value.args[3] = ast.Name(id="pricing", ctx=ast.Load())
+
+
 VARIANTS = [
+    M.Variant("custom branch-and-price hands the node LP a wrapper that answers None for a column the master holds (seed C17-Q)", BP, _v_bp_custom_pricing_wrapped, "C17-G8"),
     M.Variant("pricing DP: common factor divided out, the capacity rounded to nearest (seed C17-M)", PRI, _v_pricing_capacity_rounded_after_gcd, "C17-O1"),
     M.Variant("twin: common factor divided out, the capacity floor-divided", PRI, _t_pricing_capacity_floor_after_gcd, None),
     M.Variant("custom mode keeps duplicate initial columns (original defect)", BP, _v_duplicate_initial_columns, "C17-O3"),
